@@ -9,7 +9,11 @@ RULE = ('random DAG workloads (<= 7 jobs, <= 2 tokens, failures, markers, duplic
 
 
 def prove(ctx):
-    _sched.prove(ctx, MODULES)
+    from ..translate import depsrc
+    m = depsrc.generate(common.REPO, common.LEAN)
+    ctx.notes.append(f"translator(depsrc: plan of dependency collection at submission): {m[1]}")
+    ctx.extra_cov["translator_fallbacks_depsrc"] = m[1].count("UNTRANSLATED") + (1 if m[1].startswith("untranslated") else 0)
+    _sched.prove(ctx, MODULES, extra_msgs=[m])
 
 
 def correspond(ctx):
@@ -33,9 +37,9 @@ def replay(ctx, obj):
 # ---------------------------------------------------------------------------------------------
 # second sentence of the property: dependency collection at submission (updatedependencies)
 
-MODULES = ["XpmVerif.Properties.C04", "XpmVerif.Properties.C04Deps"]
+MODULES = ["XpmVerif.Properties.C04", "XpmVerif.Properties.C04Deps", "XpmVerif.Properties.C04DepsSrc"]
 POSITIONS = ["a", "items", "m", "ma", "h.inner", "h.sub.inner", "h.sub.sub.items", "hs.inner", "hs.items", "o", "os", "mo", "h.out",
-             "pre", "pre.hs", "init", "explicit", "o.pre", "o.pre"]
+             "pre", "pre.hs", "init", "explicit", "o.pre", "o.pre", "h.loaded", "h.loaded"]
 
 
 def gen_dep_cases(rng, n):
@@ -44,7 +48,7 @@ def gen_dep_cases(rng, n):
         tasks = []
         for i in range(rng.randint(2, 6)):
             emb = [[rng.choice(POSITIONS), j] for j in range(i) if rng.random() < 0.5]
-            emb = [e + [rng.randrange(i)] if e[0] == "o.pre" else e for e in emb]
+            emb = [e + [rng.randrange(i)] if e[0] in ("o.pre", "h.loaded") else e for e in emb]
             cls = rng.choice(["G", "GO", "GO", "GPT"])
             if cls == "GPT":
                 # pass-through task: its parameter `o` is the output of an upstream task (when there is one)
@@ -124,7 +128,8 @@ def correspond(ctx):  # noqa: F811
         _base_correspond(ctx)
         _sched.restart_part(ctx, PROP, ctx.scale(300, 3000))
         ctx.rule += ("; + dependency collection: 2-6 really submitted (dry-run) tasks, each embedding earlier ones at random positions (direct, list, dict, Meta, nested "
-                     "configuration 1-3 deep, list of nested, task output direct/list/dict/nested, pre-task, pre-task's nested configuration, init task, explicit)")
+                     "configuration 1-3 deep, list of nested, task output direct/list/dict/nested, pre-task, pre-task's nested configuration, init task, explicit, "
+                     "inside a *loaded* configuration that keeps the task that once produced it)")
         _deps_part(ctx, ctx.scale(120, 1500))
     except BaseException:
         collect()
